@@ -90,8 +90,10 @@ func (c *CredentialsStore) Load(r io.Reader) error {
 		return err
 	}
 
-	var cred Credential
 	for dec.More() {
+		// Decode each entry into a fresh value, so that fields omitted by an
+		// entry are empty rather than inherited from the previous entry.
+		var cred Credential
 		err := dec.Decode(&cred)
 		if err != nil {
 			return err
